@@ -1,18 +1,45 @@
 """Per-property claims (source of MANIFEST.json; tools/gen_manifest.py renders it)."""
 HOOK_COMMITS = []
 ENGINES = [
-    {"name": "lean-model", "path": "lean/", "serves_properties": ["C01", "C02", "C07", "C11", "C12", "C16", "C17", "C20"],
+    {"name": "lean-model", "path": "lean/", "serves_properties": ["C01", "C02", "C03", "C04", "C07", "C11", "C12", "C16", "C17", "C20"],
      "kind_free_text": "Lean 4 library Dbus (Spec, Model, Proofs, Props) + compiled line-protocol driver dbus-model"},
-    {"name": "tabulator", "path": "gen/", "serves_properties": ["C01", "C02", "C07", "C11", "C12", "C16", "C17", "C20"],
+    {"name": "tabulator", "path": "gen/", "serves_properties": ["C01", "C02", "C03", "C04", "C07", "C11", "C12", "C16", "C17", "C20"],
      "kind_free_text": "C translation units that #include repo sources and print finite tables; rendered to lean/Dbus/Generated"},
-    {"name": "h-lib", "path": "harness/lib/", "serves_properties": ["C01", "C02", "C07", "C11", "C12", "C16", "C17", "C20"],
+    {"name": "h-lib", "path": "harness/lib/", "serves_properties": ["C01", "C02", "C03", "C04", "C07", "C11", "C12", "C16", "C17", "C20"],
      "kind_free_text": "in-process C harnesses linked against the ASan/UBSan build of the working tree"},
 ]
 PENDING = "not implemented yet in this round (planned, see DESIGN.md §4/§7); no check is claimed"
 NOT_APPLICABLE = {p: PENDING for p in
-                  ["C03", "C04", "C05", "C06", "C08", "C09", "C10", "C13", "C14", "C15",
+                  ["C05", "C06", "C08", "C09", "C10", "C13", "C14", "C15",
                    "C18", "C19"]}
+BUS_TIE = ("The bus model (lean/Dbus/Model/Bus: dispatch, driver methods, registry, match delivery, policy gate, pending replies, "
+           "disconnect cleanup; method table regenerated from bus/driver.c) is tied to the real dbus-daemon (ASan/UBSan build of the working "
+           "tree) by generated histories over raw sockets: after every operation every connection's received messages and every "
+           "connection closed by the bus must equal what the model's step emits; disagreements are classified by a trace oracle "
+           "written independently of the model. ")
 CHECKS = {
+    "C03": {
+        "text": "Proved in Lean for every bus state, sender and message (any header a client can put on the wire): every message the bus "
+                "hands to any connection while processing it has header fields 1..9 only and carries as sender org.freedesktop.DBus or the "
+                "sending connection's unique name (delivered_sender_and_fields; hypothesis discharged for everything the loader accepts: "
+                "loader_guarantees_hypothesis), with the one recorded exception F14 stated in the theorem (f14_witness). Unique names: in every "
+                "reachable state (induction over all histories of connects, messages, invalid input and disconnects) no name was ever handed "
+                "out twice, live connections carry distinct logged ':' names (unique_names, names_injective via the counters' lexicographic "
+                "order and injectivity of the decimal rendering), a second Hello is refused, and a name once given is never changed "
+                "(name_is_for_life). " + BUS_TIE,
+        "note": "The counters are unbounded naturals in the model; the C code's signed-int wrap after 2^31 names is not modelled.",
+    },
+    "C04": {
+        "text": "The specification's RequestName/ReleaseName rules are written out in Lean (Spec/Names.lean, from doc/dbus-specification.xml). "
+                "Proved for every queue satisfying the queue invariant, every caller and every flag word (undefined bits included): the queue "
+                "bus/services.c computes equals the specification's outside one recorded case (requestName_queue; F15: REPLACE_EXISTING that "
+                "cannot replace jumps the queue, f15_witness, same primary owner: queue_jump_same_primary), reply codes and the "
+                "NameLost/NameOwnerChanged/NameAcquired signals (addressee and order) equal the specification's in every case, likewise for "
+                "ReleaseName and disconnection. The queue invariant holds in every reachable state of the whole bus model "
+                "(queues_well_formed, by the generic leaf induction over step), reserved names can be neither requested nor released, a refused "
+                "request changes nothing, the reply follows the signals, and the query methods report the queue. " + BUS_TIE,
+        "note": "F15 is a known finding (see known-findings.json); the trace oracle re-implements the specification in Python and follows the daemon's order after a recorded jump.",
+    },
     "C07": {
         "text": "Proved in Lean over the model of bus/signals.c (tokenizer, bus_match_rule_parse, match_rule_matches, match_rule_equal): a quoted "
                 "value round-trips through the tokenizer, unbalanced quotes / unknown keys / duplicate keys / over-long rules are rejected, and each "
